@@ -153,14 +153,14 @@ func observeState(o Obs, tag string, st core.StateReader, u *Universe, version s
 }
 
 type filteredEventText struct {
-	Block  uint64
-	Hash   string
-	Tx     string
-	TxIdx  uint
-	EvIdx  uint
-	From   string
-	Keys   string
-	Data   string
+	Block uint64
+	Hash  string
+	Tx    string
+	TxIdx uint
+	EvIdx uint
+	From  string
+	Keys  string
+	Data  string
 }
 
 func eventsQuery(bc *blockchain.Blockchain, addrs []felt.Address, keys [][]felt.Felt, from, to uint64, chunk uint64) string {
